@@ -17,6 +17,11 @@ echo "overlay: $OV"
 cd /verif
 for id in "$@"; do
   echo "=== $id ${TIER:-quick}"
-  VERIF_EXTRA_OVERLAY="$OV" ./vcheck "$id" "${TIER:-quick}" 2>&1 | grep -E "^VIOLATION|^KNOWN|HARNESS|^C[0-9]+ (quick|thorough):" | head -8
-  echo "exit=${PIPESTATUS[0]}"
+  out="$(VERIF_EXTRA_OVERLAY="$OV" ./vcheck "$id" "${TIER:-quick}" 2>&1)"; rc=$?
+  echo "$out" | grep -E "^VIOLATION" | head -5
+  echo "$out" | grep -A2 -E "^VIOLATION" | grep -E "^  what:" | head -2 | cut -c1-300
+  echo "$out" | grep -E "HARNESS" | head -3
+  echo "$out" | grep -E "^C[0-9]+ (quick|thorough):" | cut -c1-260
+  echo "violation_lines=$(echo "$out" | grep -c "^VIOLATION") known_lines=$(echo "$out" | grep -c "^KNOWN-FINDING")"
+  echo "exit=$rc"
 done
